@@ -473,8 +473,32 @@ func (c *Ctx) c11Decide(sites []partialSite, tb *ir.TB) {
 				t = tb.Of(b.Y, nil).String()
 			}
 		})
-		if strings.Contains(t, "field:Curves(field:Function") {
-			c.R.Ok("R-members", c.FK(fn), c.FK(fn), c.P.Pos(fn.Pos()), "the divisor / indexed collection is built with one element per entry of function.curves")
+		skipped := ""
+		Calls(fn, func(cc ssa.CallInstruction) {
+			call, ok := cc.(*ssa.Call)
+			if !ok || ir.Callee(call).Builtin != "append" {
+				return
+			}
+			head := loopHead(call.Block())
+			if head == nil {
+				return
+			}
+			var starts []ir.Point
+			for si, sb := range head.Succs {
+				if sb != head && head.Dominates(sb) && reachesWithinLoop(sb, head) {
+					starts = append(starts, ir.EdgeStart(head, si))
+				}
+			}
+			ir.Search{StopInstr: func(ins ssa.Instruction) bool { return ins == ssa.Instruction(call) }}.Reach(starts, func(ins ssa.Instruction, _ *ssa.BasicBlock) {
+				if ins.Block() == head && ins == head.Instrs[0] {
+					skipped = c.P.Pos(call.Pos())
+				}
+			})
+		})
+		if skipped != "" {
+			c.R.Bad("R-members", c.FK(fn), c.FK(fn), skipped, "an iteration over the members can complete without appending to the collection whose length is used as divisor / index bound: len(values) == len(function.curves) no longer holds, so the validator's non-empty check does not protect values[0] / the division")
+		} else if strings.Contains(t, "field:Curves(field:Function") {
+			c.R.Ok("R-members", c.FK(fn), c.FK(fn), c.P.Pos(fn.Pos()), "the divisor / indexed collection is built with one element per entry of function.curves (every iteration appends or returns)")
 		} else if t != "" {
 			c.R.Bad("R-members", c.FK(fn), c.FK(fn), c.P.Pos(fn.Pos()), "the average's divisor is not derived from function.curves: "+t)
 		}
